@@ -131,6 +131,8 @@ def encode_tokens_for_variant(F, X, b, variant, self_locals=(1,), buf_locals=Non
                     lib.INT_RANGES[e[3]][0] <= lib.INT_RANGES[e[2]][0] and lib.INT_RANGES[e[2]][1] <= lib.INT_RANGES[e[3]][1]:
                 inner = val_expr(e[4])
                 return inner if isinstance(inner, int) else None      # a widened *field* is no longer the field's own width
+            if not e[1].startswith("IntToInt") and not e[1].startswith("FloatTo") and not e[1].startswith("IntToFloat"):
+                return val_expr(e[4])                                 # pointer coercions (`&[u8; 2]` as `&[u8]`) keep the bytes
             return None
         if e[0] == "bin" and e[1] in ("BitOr", "Add", "BitAnd", "Shl", "Shr", "Mul"):
             a, c = val_expr(e[2]), val_expr(e[3])
@@ -237,6 +239,16 @@ def encode_tokens_for_variant(F, X, b, variant, self_locals=(1,), buf_locals=Non
                                 tok = (m.group(2), fld, m.group(1))
                                 break
                     toks.append(tok)
+            elif c.name in ("std::slice::<impl [T]>::to_vec", "core::slice::<impl [T]>::to_vec", "std::vec::Vec::from", "std::convert::From::from", "std::convert::Into::into",
+                            "std::borrow::ToOwned::to_owned") and c.args and (t.get("rty") or "").startswith("std::vec::Vec<u8>"):
+                # the vector starts out as these bytes: `x.to_be_bytes().to_vec()`, `Vec::from([..])`
+                v = val_expr(strip(X.operand(b, c.args[0])))
+                if isinstance(v, tuple) and v[0] in ("be", "le", "ne", "bytes"):
+                    toks.append(v)
+                elif v is None:
+                    e0 = strip(X.operand(b, c.args[0]))
+                    if not (e0[0] == "agg" and e0[1] == "array"):
+                        toks.append(("unknown", "initial bytes " + show(e0)[:60]))
             elif c.name == "std::vec::Vec::push" and "Vec::<u8>" in c.full and len(c.args) > 1:
                 emit_int(val(c.args[1]), 1, "push")
             elif c.fn.get("trait") and canon(c.fn["trait"]) == "bytes::BufMut" and re.match(r"put_u(8|16|32|64)(_le)?$", c.mname or "") and len(c.args) > 1:
